@@ -57,12 +57,14 @@ def run(ctx, replay):
     os.makedirs(scr, exist_ok=True)
     nc, ng, ns, ni, nl = (3000, 400, 200, 60, 400) if thorough else (300, 60, 24, 6, 40)
     ncp = 64 if thorough else 8
+    nrev = 60 if thorough else 8
     summ, rc, _ = ctx.run_vdrive(["iddict", "--seed", ctx.seed, "--concurrent", nc, "--gated", ng, "--sequential", ns,
-                                  "--images", ni, "--loop", nl, "--compact", ncp, "--out", tr, "--scratch", scr],
+                                  "--images", ni, "--loop", nl, "--compact", ncp, "--reverse", nrev, "--out", tr, "--scratch", scr],
                                  timeout=3000)
     # compaction family: every level-0 compaction that was due (threshold reached / Family.Compact with > 1 file)
     # must have run to its end, else the histories did not exercise what they are there for
     ctx.extra["compact_histories"] = ncp
+    ctx.extra["reverse_lookup_histories"] = nrev
     ctx.extra["compact_jobs"] = summ["extra"].get("compact_jobs_done", 0)
     if ncp and (summ["extra"].get("compact_jobs_due", 0) == 0
                 or summ["extra"].get("compact_jobs_done", 0) < summ["extra"].get("compact_jobs_due", 0)):
@@ -124,6 +126,23 @@ def run(ctx, replay):
             if '"ev":"Reset"' in ln:
                 last = {}
         return None
+    def foreign_name(lines):
+        # the reverse lookup returns, for one id, the name of another id
+        for i, ln in enumerate(lines):
+            if '"ev":"Collect"' in ln:
+                d = json.loads(ln)
+                ids = sorted(d["pairs"])
+                if len(ids) >= 2:
+                    d["pairs"][ids[0]] = d["pairs"][ids[1]]
+                    out = list(lines)
+                    out[i] = json.dumps(d, separators=(",", ":")) + "\n"
+                    return out
+        return None
+    rev = os.path.join(ctx.scratch, "iddict-rev.ndjson")
+    with open(rev, "w") as f:
+        for t in [x for x in vcore.split_traces(lines) if '"mode":"reverse"' in x[0]][:2]:
+            f.write("".join(t))
+    vcore.corrupt_selftest(ctx, "IDDictTrace", "IDDictTrace.cfg", rev, foreign_name, "the reverse lookup returns another id's name")
     seq = os.path.join(ctx.scratch, "iddict-seq.ndjson")
     with open(seq, "w") as f:
         for t in vcore.split_traces(lines)[nc + ng:nc + ng + 3]:
